@@ -384,6 +384,12 @@ fn check_row_pure(scratch: &Path, r: &Row) -> Check {
         .filter(|(i, _)| r.env_present[*i])
         .map(|(i, kv)| if i == 1 { (kv.0, OsString::from(["linux", "windows", "darwin", ""][r.target_os as usize % 4])) } else { kv })
         .collect();
+    // the lifecycle also exports the locations as variables (newer API versions); libcnb takes them from the arguments only
+    let mut env = env;
+    env.push(("CNB_PLATFORM_DIR".into(), d.platform.clone().into_os_string()));
+    env.push(("CNB_BUILD_PLAN_PATH".into(), d.plan.clone().into_os_string()));
+    env.push(("CNB_LAYERS_DIR".into(), d.layers.clone().into_os_string()));
+    env.push(("CNB_BP_PLAN_PATH".into(), d.plan.clone().into_os_string()));
     let script = json!({
         "detect": match &r.detect { DetectB::Pass => json!("pass"), DetectB::Fail => json!("fail"), DetectB::Error => json!("error"), DetectB::PassPlan(p) => json!({"pass_plan": c07::plan_ops_json(p)}) },
         "build": {"kind": match r.build.kind { 0 => "ok", 1 => "error", _ => "layer_error" }, "launch": r.build.launch.as_ref().map(|l| c07::launch_ops_json(l)), "store": r.build.store.as_ref().map(TV::to_json), "build_sboms": sboms_json(&r.build.build_sboms), "launch_sboms": sboms_json(&r.build.launch_sboms)},
